@@ -69,3 +69,43 @@ Proof.
   - vm_compute. auto.
   - reflexivity.
 Qed.
+
+(* the same run satisfies the schedule-level hypotheses of election_safety_fixed_membership *)
+From BLB Require Import Raft.NodeConf Raft.ElectionFixed.
+
+Lemma sstep2_exec n σ i ev k s crashed st s' :
+  get_node i (sy_nodes σ) = Some s ->
+  (forall m, ev = EDeliver m -> In m (sy_soup σ) /\ m_to m <> 0) ->
+  evok2 n ev ->
+  run_event_crash (settle s) ev k = Ret (crashed, st, s') ->
+  sstep2 n σ (i, ev, k) (apply_step σ i ev k).
+Proof.
+  intros G D E Rn. unfold apply_step. rewrite G, Rn. eapply SStep2; eauto.
+Qed.
+
+Ltac one_step2 :=
+  eapply sstep2_exec;
+  [ vm_compute; reflexivity
+  | intros m Hm; discriminate
+  | simpl; auto
+  | vm_compute; reflexivity ].
+
+Example election_fixed_nonvacuous :
+  exists σ0 sched σ t a,
+    sinit2 σ0 /\ run sys sys_event (sstep2 (length (sy_nodes σ0))) σ0 sched σ /\ In (t, a) (sy_hist σ).
+Proof.
+  exists ex0, [(1, EBootstrap [1] 5, 0); (1, ETick, 0); (1, ETick, 0); (1, ERestart, 0); (1, ETick, 2)], ex5, 2, 1.
+  split; [| split].
+  - unfold sinit2. split; [| split; [| auto]].
+    + simpl. constructor; [simpl; tauto | constructor].
+    + intros s [H | []]. subst s. split; [vm_compute; discriminate|]. split; [reflexivity|].
+      unfold sok, pok. vm_compute. repeat split; auto.
+  - change (length (sy_nodes ex0)) with 1%nat.
+    apply run_cons with (s1 := ex1); [one_step2|].
+    apply run_cons with (s1 := ex2); [one_step2|].
+    apply run_cons with (s1 := ex3); [one_step2|].
+    apply run_cons with (s1 := ex4); [one_step2|].
+    apply run_cons with (s1 := ex5); [one_step2|].
+    apply run_nil.
+  - vm_compute. auto.
+Qed.
